@@ -1,7 +1,7 @@
 (* C02 - one owner per nickname; a connection only ever acts as itself.  Statements only;
    proofs in IRCP.InvStep / IRCP.Reach. *)
 From IRC Require Import Str Wild Glob Parse Reply State Handlers Step.
-From IRCP Require Import InvDefs InvStep Reach ConcP.
+From IRCP Require Import InvDefs InvStep Reach ConcP OthersFrame OthersGlobal.
 From stdpp Require Import gmap.
 
 Section C02.
@@ -62,6 +62,19 @@ Theorem C02_late_teardown_own_only : forall w j c w', InvK w -> conns w !! j = S
   (forall n u, users (sh w) !! n = Some u -> u_conn u <> j -> users (sh w') !! n = Some u).
 Proof. exact (late_teardown_own_only cfg verify). Qed.
 
+(* CAN MODIFY ONLY THE USER IT REGISTERED ITSELF, over every event of every connection i - any line, registered or
+   not, and however the connection ends: every user record that does not belong to i and exists afterwards existed
+   before under the same nick with the same owner, host, user name, real name, source prefix, user modes, away text
+   and WHOWAS data.  (What a foreign command can reach in such a record is its membership set - KICK, C04 -, its
+   pending invitations - INVITE, C09 - and the KILL mark of an operator's KILL / DIE - C11; the record disappears
+   only with its own session - C05 / C06.) *)
+Theorem C02_cannot_modify_others : forall w i e w' o cl, Inv w -> step cfg verify w i e = Ok (w', o, cl) ->
+  forall n u', users (sh w') !! n = Some u' -> u_conn u' <> i ->
+  exists u, users (sh w) !! n = Some u /\
+    (u_conn u', u_host u', u_name u', u_real u', u_source u', u_modes u', u_away u', u_hist u') =
+    (u_conn u, u_host u, u_name u, u_real u, u_source u, u_modes u, u_away u, u_hist u).
+Proof. exact (others_untouched cfg verify). Qed.
+
 End C02.
 
 Print Assumptions C02_one_owner.
@@ -70,3 +83,4 @@ Print Assumptions C02_acts_only_as_itself.
 Print Assumptions C02_unregistered_inert.
 Print Assumptions C02_deferred_kill_ownership.
 Print Assumptions C02_late_teardown_own_only.
+Print Assumptions C02_cannot_modify_others.
